@@ -136,18 +136,21 @@ theorem lmsafe_yank (t : Text) (n : Nat) : LMSafe (LB.yank S U t n) :=
 
 theorem safe_editYank (t : Text) (a : Anchor) (n : Nat) (hnp : cfg.hinterPanicAt = none) {s : Ed} (h : EdWF cfg s) :
     Safe cfg (editYank S U cfg t a n) s := by
-  unfold Safe editYank
-  simp only []
-  split
-  case' isTrue =>
+  -- the paste and, on refusal, `set_pos(pos)`: from a state whose line still holds the text of `s`
+  have tail : ∀ (l1 : LB), WF l1 → l1.buf = s.line.buf →
+      wp (do match ← lb S U (LB.yank S U t n) with
+             | some _ => do
+               if cfg.vi then do let _ ← lbQuiet (LB.moveBackward S U 1); Pure.pure ()
+               refreshLine S U cfg
+             | none => lbQuiet (LB.setPosChecked S U s.line.pos) : EM Unit)
+        (fun _ s' => EdWF cfg s') (fun o _ => o ≠ .panic) ({ s with line := l1 } : Ed) := by
+    intro l1 hw1 hb1
+    have h1 : EdWF cfg ({ s with line := l1 } : Ed) := ⟨hw1, h.saved, h.ring⟩
+    obtain ⟨r, l2, ns, hy, hw2⟩ := C03_yank_total_wf S U t n l1 hw1
     rw [wp_bind]
-    refine wp_lbQuiet_safe cfg (lmsafe_moveForward S U 1) h fun moved s1 h1 _ _ _ => ?_
-  case' isFalse =>
-    simp only [wp_bind, wp_pure]
-    have h1 := h
-  all_goals
-    try rw [wp_bind]
-    refine wp_lb_safe S U cfg (lmsafe_yank S U t n) h1 fun r s2 h2 _ _ _ => ?_
+    refine wp_lb S U (s := { s with line := l1 }) hy ?_
+    have h2 : EdWF cfg ({ s with line := l2, changes := s.changes.onNotifs S U.alnum ns } : Ed) :=
+      ⟨hw2, h.saved, h.ring⟩
     cases r with
     | some b =>
       simp only []
@@ -158,12 +161,32 @@ theorem safe_editYank (t : Text) (a : Anchor) (n : Nat) (hnp : cfg.hinterPanicAt
       · exact safe_refreshLine S U cfg hnp h2
     | none =>
       simp only []
-      try split
-      all_goals first
-        | exact h2
-        | (simp only [wp_bind]
-           refine wp_lbQuiet_safe cfg (lmsafe_moveBackward S U 1) h2 fun _ s3 h3 _ _ _ => ?_
-           exact h3)
+      -- a refused paste left the line as it was
+      have hl2 : l2 = l1 := by
+        rw [yank_eval] at hy
+        split at hy
+        · cases hy; rfl
+        · split at hy <;> cases hy
+      subst hl2
+      have hle : s.line.pos ≤ l2.len := by
+        have := IsBoundary.le_len h.line
+        show s.line.pos ≤ blen l2.buf
+        rw [hb1]; exact this
+      have hs3 : LB.setPosChecked S U s.line.pos l2 = .ok ((), { l2 with pos := s.line.pos }, []) := by
+        simp [LB.setPosChecked, hle]
+      refine wp_lbQuiet (s := { s with line := l2, changes := s.changes.onNotifs S U.alnum ns }) hs3 ?_
+      refine ⟨?_, h.saved, h.ring⟩
+      show IsBoundary l2.buf s.line.pos
+      rw [hb1]; exact h.line
+  unfold Safe editYank
+  rw [wp_bind, wp_get]
+  simp only []
+  split
+  · rw [wp_bind]
+    obtain ⟨r1, l1, hmf, hw1, hb1⟩ := C03_moveForward_total_wf S U s.line 1 h.line
+    refine wp_lbQuiet hmf ?_
+    exact tail l1 hw1 hb1
+  · exact tail s.line h.line rfl
 
 theorem safe_completeHintLine (hnp : cfg.hinterPanicAt = none) {s : Ed} (h : EdWF cfg s) : Safe cfg (completeHintLine S U cfg) s := by
   unfold Safe completeHintLine
